@@ -178,6 +178,46 @@ theorem pad1_trace (nMos nOcc : Nat) (active : List Nat) (one : Nat → Nat → 
 theorem pad1_pure (nOcc : Nat) (active : List Nat) (one : Nat → Nat → R) :
     pad1 nOcc active one = pad1 nOcc active one := rfl
 
+/-! ## Hermiticity is carried through placement, spin summation and padding
+
+`σ` stands for complex conjugation (any additive map will do).  The expectation value of the Hermitian conjugate of
+a term is the conjugate of the term's expectation value; what `get_rdm` stores then makes both RDMs Hermitian.
+Storing the SAME value at both positions (an "evaluate only one of each conjugate pair" shortcut) satisfies the
+hypothesis only for real values. -/
+
+/-- 2-RDM placement: `e l k j i = σ (e i j k l)` (⟨(a†_i a†_j a_k a_l)†⟩ = conj ⟨a†_i a†_j a_k a_l⟩) makes the placed tensor
+    Hermitian in chemist notation, Γ[q,p,s,r] = σ Γ[p,q,r,s] -/
+theorem place2_hermitian (σ : R → R) (e : Nat → Nat → Nat → Nat → R) (h : ∀ i j k l, e l k j i = σ (e i j k l)) (p q r s : Nat) :
+    place2 e q p s r = σ (place2 e p q r s) := by
+  unfold place2; exact h p r s q
+
+/-- spin summation of a Hermitian spin-orbital tensor is Hermitian -/
+theorem spinSum_hermitian (σ : R →+ R) (m : Nat) (t : Nat → Nat → R) (h : ∀ i j, t j i = σ (t i j)) (p q : Nat) (hp : p < m) (hq : q < m) :
+    spinSumLoop (2 * m) t q p = σ (spinSumLoop (2 * m) t p q) := by
+  rw [spinSum_blocks m t q p hq hp, spinSum_blocks m t p q hp hq]
+  simp only [map_add, ← h]
+  ring
+
+/-- padding with frozen orbitals keeps Hermiticity (the added entries are the real numbers 0 and 2) -/
+theorem pad1_hermitian (σ : R → R) (h0 : σ 0 = 0) (h2 : σ 2 = 2) (nOcc : Nat) (active : List Nat) (one : Nat → Nat → R)
+    (h : ∀ a b, one b a = σ (one a b)) (p q : Nat) :
+    pad1 nOcc active one q p = σ (pad1 nOcc active one p q) := by
+  unfold pad1
+  by_cases h1 : p ∈ active ∧ q ∈ active
+  · have h1' : q ∈ active ∧ p ∈ active := ⟨h1.2, h1.1⟩
+    simp only [h1, h1', and_self, if_true]; exact h _ _
+  · have h1' : ¬(q ∈ active ∧ p ∈ active) := fun hh => h1 ⟨hh.2, hh.1⟩
+    simp only [h1, h1', if_false]
+    by_cases h3 : p = q
+    · subst h3; by_cases h4 : p < nOcc <;> simp [h4, h0, h2]
+    · have h4 : ¬ q = p := fun e => h3 e.symm
+      simp [h3, h4, h0]
+
+/-- storing one value at both positions is Hermitian only if that value is its own conjugate -/
+theorem same_value_both_positions_not_hermitian :
+    ∃ (σ : Int × Int → Int × Int) (t : Nat → Nat → Int × Int), (∀ i j, t j i = t i j) ∧ t 1 0 ≠ σ (t 0 1) :=
+  ⟨fun z => (z.1, -z.2), fun _ _ => (0, 1), fun _ _ => rfl, by decide⟩
+
 /-! ## non-vacuity -/
 example : pad1 2 [1, 3] (fun a b => ((10 * a + b : Nat) : Int)) 0 0 = 2 ∧ pad1 2 [1, 3] (fun a b => ((10 * a + b : Nat) : Int)) 3 1 = 10 := by
   decide
